@@ -1119,7 +1119,23 @@ def enumerate_paths(fn, decide=None, max_paths=256):
             return run(rest, env, asm, k)
         if isinstance(s, (ast.Expr, ast.Pass, ast.Assert, ast.Import, ast.ImportFrom, ast.Global, ast.Nonlocal, ast.FunctionDef)):
             return run(rest, env, asm, k)
-        raise AnalysisError(f"shape not recognised: `{norm_text(s, 50)}` in {qualname_of(fn)} (path enumeration handles loop-free bodies)")
+        if isinstance(s, (ast.For, ast.While)):
+            # a loop is opaque: whatever it assigns is unknown afterwards; returns inside it are recorded as exits
+            env = dict(env)
+            for x in ast.walk(s):
+                if isinstance(x, ast.Name) and isinstance(x.ctx, ast.Store):
+                    env[x.id] = ast.Name(id=f"<{x.id}@loop{s.lineno}>", ctx=ast.Load())
+            for x in ast.walk(s):
+                if isinstance(x, (ast.Return, ast.Raise)):
+                    out.append((dict(asm), dict(env), x))
+            return run(rest, env, asm, k)
+        if isinstance(s, ast.With):
+            env = dict(env)
+            for it in s.items:
+                if isinstance(it.optional_vars, ast.Name):
+                    env[it.optional_vars.id] = it.context_expr
+            return run(list(s.body) + rest, env, asm, k)
+        raise AnalysisError(f"shape not recognised: `{norm_text(s, 50)}` in {qualname_of(fn)} (path enumeration handles if / loops / with)")
 
     run(list(fn.body), {}, {}, lambda e, a: out.append((dict(a), dict(e), None)))
     return out
